@@ -2022,10 +2022,12 @@ void SPxMainSM<R>::trivialHeuristic(SPxLPBase<R>& lp)
    VectorBase<R>         upLocks(lp.nCols());
    VectorBase<R>         downLocks(lp.nCols());
 
-   R            zeroObj = this->m_objoffset;
-   R            lowerObj = this->m_objoffset;
-   R            upperObj = this->m_objoffset;
-   R            lockObj = this->m_objoffset;
+   // the objective offset is kept in the sense of the user's objective, the sums below use maxObj()
+   const R      maxoffset = (lp.spxSense() == SPxLPBase<R>::MINIMIZE ? -this->m_objoffset : this->m_objoffset);
+   R            zeroObj = maxoffset;
+   R            lowerObj = maxoffset;
+   R            upperObj = maxoffset;
+   R            lockObj = maxoffset;
 
    bool            zerovalid = true;
 
@@ -2159,7 +2161,8 @@ bool SPxMainSM<R>::checkSolution(SPxLPBase<R>& lp, VectorBase<R> sol)
 template <class R>
 void SPxMainSM<R>::propagatePseudoobj(SPxLPBase<R>& lp)
 {
-   R pseudoObj = this->m_objoffset;
+   // the objective offset is kept in the sense of the user's objective, the sum below uses maxObj()
+   R pseudoObj = (lp.spxSense() == SPxLPBase<R>::MINIMIZE ? -this->m_objoffset : this->m_objoffset);
 
    for(int j = lp.nCols() - 1; j >= 0; --j)
    {
